@@ -340,6 +340,8 @@ CLOSED = [
     ("closed-bs0", f"forall(i, 0, {L}, self.bsCount[i] == 0)"),
     ("closed-CONS", f"forall(i, 0, {L}, self.sCount[i] >= 0 and self.sCount[i] == PhysCol(self.src, self.bMarks[i] + self.tShift[i]))"),
     ("closed-linestart", f"forall(i, 0, {L}, self.bMarks[i] == 0 or self.src[self.bMarks[i] - 1] == '\\n')"),
+    ("closed-WF4", f"forall(i, 0, {L} - 1, self.eMarks[i] < {N})"),
+    ("closed-WF5", f"forall(i, 0, {L}, implies(self.bMarks[i] + self.tShift[i] < self.eMarks[i], not (self.src[self.bMarks[i] + self.tShift[i]] == ' ' or self.src[self.bMarks[i] + self.tShift[i]] == '\\t')))"),
 ]
 add(Contract(
     SB + "__init__", params={"self": "obj:StateBlock", "src": "str", "md": "obj:MarkdownIt", "env": "opaque", "tokens": "tokseq"}, props=["C01", "C03", "C17"],
@@ -350,6 +352,8 @@ add(Contract(
         ("WF1-sentinel", f"self.bMarks[{L} - 1] == {N} and self.eMarks[{L} - 1] == {N} and self.tShift[{L} - 1] == 0", ["C01"]),
         ("WF2", f"forall(i, 0, {L}, 0 <= self.bMarks[i] and 0 <= self.tShift[i] and self.bMarks[i] + self.tShift[i] <= self.eMarks[i] and self.eMarks[i] <= {N})", ["C01", "C03"]),
         ("WF3", f"forall(i, 0, {L} - 1, implies(self.eMarks[i] < {N}, self.src[self.eMarks[i]] == '\\n'))", ["C01"]),
+        ("WF4", f"forall(i, 0, {L} - 2, self.eMarks[i] < {N})", ["C01"]),
+        ("WF5", f"forall(i, 0, {L} - 1, implies(self.bMarks[i] + self.tShift[i] < self.eMarks[i], not (self.src[self.bMarks[i] + self.tShift[i]] == ' ' or self.src[self.bMarks[i] + self.tShift[i]] == '\\t')))", ["C01"]),
         ("CONS", f"forall(i, 0, {L} - 1, self.bsCount[i] == 0 and self.sCount[i] >= 0 and self.bsCount[i] + self.sCount[i] == PhysCol(self.src, self.bMarks[i] + self.tShift[i]))", ["C17", "C06"]),
         ("lines-cover-source", f"forall(p, 0, {N}, exists(i, 0, {L} - 1, self.bMarks[i] <= p and p <= self.eMarks[i]) or forall(k, p, {N}, self.src[k] == ' ' or self.src[k] == '\\t'))", ["C03"]),
         ("fresh-context", "self.blkIndent == 0 and self.line == 0 and self.level == 0 and self.parentType == 'root' and self.src == src", ["C07", "C12"]),
